@@ -10,7 +10,7 @@ nondet_volatile: user_abort
 fn: io_close io_close_dest io_close_src io_sync_dest io_unlink io_copy_attrs io_write_buf
 sentinels: 5
 expect: 40
-replay: none
+replay: native
 desc: io_close(pair, success) with EVERY system call free to fail: the source file is unlinked ONLY IF the caller reported success AND the pending sparse tail was materialised (lseek + 1-byte write succeeded) AND, with synchronous mode, both fsyncs succeeded AND close(dest) returned 0 BEFORE the unlink AND --keep was not given; unlink happens only after (l)stat still shows the same device/inode; on ANY failure of those steps the incomplete target is removed (after the same identity check) and the source stays; a user signal (user_abort, nondeterministic at every read) during the tail write counts as failure; stdout as destination is never closed/unlinked
 assume: close/unlink/lseek/write/fsync/stat/lstat/fchown/fchmod/futimens/fcntl/free/message_* are stubs: return values nondeterministic (any fault sequence), each call recorded in a ghost event log; POSIX semantics of those calls are trusted
 */
@@ -23,7 +23,7 @@ unwind: 1030
 fn: is_sparse
 sentinels: 2
 expect: 5
-replay: none
+replay: native
 timeout: 900
 desc: is_sparse(buf) is true iff all IO_BUFFER_SIZE (8192) bytes are zero: for an arbitrary buffer a true result implies the byte at an arbitrary index is zero; a buffer that is zero except one arbitrary byte at an arbitrary index is sparse iff that byte is zero (loop over the whole buffer, complete unwinding)
 */
@@ -38,7 +38,7 @@ nondet_volatile: user_abort
 fn: io_write io_write_buf
 sentinels: 4
 expect: 30
-replay: none
+replay: native
 desc: io_write with ghost logical/physical offsets: a block is skipped (no system call, dest_pending_sparse += size) only when sparse mode is on, the block is a full IO_BUFFER_SIZE block and is all zero; before any real data is written a pending hole is skipped with lseek(SEEK_CUR, pending) and a failed seek is an error with nothing written; then exactly the block's bytes are written from their start; invariant file position + pending hole == bytes the caller has written so far; without sparse mode every byte goes through write
 assume: write is a stub that accepts any positive amount <= requested or fails; lseek a stub that may fail
 */
@@ -51,7 +51,7 @@ unwind: 26
 fn: io_copy_attrs
 sentinels: 2
 expect: 10
-replay: none
+replay: native
 desc: io_copy_attrs: the mode passed to fchmod never grants a permission bit the source did not have and never contains setuid/setgid/sticky; when the group could not be set the group bits are reduced to what 'other' also has; access/modification times passed to futimens are the source's; failures only warn
 */
 
@@ -64,7 +64,7 @@ unwind: 26
 fn: io_open_dest_real
 sentinels: 6
 expect: 30
-replay: none
+replay: native
 desc: io_open_dest_real with every system call free to fail: a destination FILE is only ever created with O_CREAT|O_EXCL (never O_TRUNC, never opened without O_EXCL) and mode 0600, so an existing file is never overwritten unless --force asked for it -- and then it is removed with unlink BEFORE the exclusive create, a failed unlink (other than ENOENT) aborts; with --stdout or standard input as source nothing is opened or unlinked and the destination is fd 1; on every error path no destination fd is left behind, the directory fd is closed, and true is returned; sparse mode is enabled only when decompressing with sparse allowed and the target is a regular file we created or a regular-file stdout positioned at its end (append mode: seek to the end and clear O_APPEND, to be restored at close)
 assume: open/unlink/fstat/fcntl/lseek/close/free/xstrdup/dirname/suffix_get_dest_name are stubs with nondeterministic results recorded in the ghost event log
 */
@@ -79,12 +79,47 @@ nondet_volatile: user_abort
 fn: io_open_src_real io_wait
 sentinels: 8
 expect: 20
-replay: none
+replay: native
 desc: io_open_src_real for every file kind/mode/link count/flag combination and every failing system call: the source is opened exactly once, read-only (never O_CREAT/O_TRUNC/O_WRONLY/O_RDWR), with O_NOCTTY|O_NONBLOCK, and with O_NOFOLLOW exactly when none of --stdout/--force/--keep is given; it is ACCEPTED (false returned) only if open and fstat succeeded, it is not a directory, it is a regular file unless writing to stdout, and -- when replacing files without --force/--keep -- it has no setuid/setgid/sticky bit and at most one hard link; pair->src_st is what fstat reported (the identity/mode later used for unlink and attribute copying); conversely an ordinary regular file (no special bits, one link) is always accepted; a refused symbolic link (ELOOP + lstat says link) is a warning, other open failures are errors; every refusal after a successful open closes the descriptor; standard input is never opened, closed or refused
 assume: open/fstat/lstat/poll/posix_fadvise/fcntl/close are stubs with nondeterministic results; O_NOFOLLOW semantics of the kernel are trusted
 */
 
 #include "verif.h"
+#ifdef VERIF_NATIVE
+/* native replay: the system-call stubs below must not replace libc's functions inside the replay program (stdio, the sanitizer
+ * runtime), so they -- and the calls in file_io.c -- are renamed at source level; stat/lstat/fstat are function-like so that
+ * 'struct stat' stays what it is */
+#include <stdlib.h>
+#include <sys/types.h>
+#include <sys/stat.h>
+#include <fcntl.h>
+#include <unistd.h>
+#include <poll.h>
+#include <libgen.h>
+#define open verif_open
+#define close verif_close
+#define unlink verif_unlink
+#define lseek verif_lseek
+#define write verif_write
+#define fsync verif_fsync
+#define fchown verif_fchown
+#define fchmod verif_fchmod
+#define futimens verif_futimens
+#define fcntl verif_fcntl
+#define poll verif_poll
+#define posix_fadvise verif_posix_fadvise
+#define free verif_free
+#define dirname verif_dirname
+#define stat(a, b) verif_stat(a, b)
+#define lstat(a, b) verif_lstat(a, b)
+#define fstat(a, b) verif_fstat(a, b)
+/* prototypes of the renamed stubs (the macros above rename these too) */
+int open(const char *path, int flags, ...); int close(int fd); int unlink(const char *name); off_t lseek(int fd, off_t off, int whence);
+ssize_t write(int fd, const void *buf, size_t n); int fsync(int fd); int fchown(int fd, uid_t u, gid_t g); int fchmod(int fd, mode_t m);
+int futimens(int fd, const struct timespec tv[2]); int fcntl(int fd, int cmd, ...); int poll(struct pollfd *fds, nfds_t n, int timeout);
+int posix_fadvise(int fd, off_t a, off_t b, int advice); void free(void *p); char *dirname(char *p);
+int stat(const char *restrict name, struct stat *restrict st); int lstat(const char *restrict name, struct stat *restrict st); int fstat(int fd, struct stat *st);
+#endif
 /* the real translation unit first (it includes private.h, which has no include guard) */
 const char stdin_filename[] = "(stdin)"; /* complete type before args.h declares it (CBMC compares addresses of incomplete arrays unequal) */
 #include "file_io.c"
@@ -110,9 +145,16 @@ struct in {
 static struct in IN VERIF_IN_INIT;
 
 struct in2 { uint8_t r_open_dir, r_open_dest, r_fstat, dest_isreg, r_fcntl_get, r_fcntl_set, name_null, to_stdout, src_stdin, try_sparse_opt, mode_decompress, r_unlink_enoent, r_lseek_end; int32_t stdout_flags; int64_t cur_pos, st_size; };
-static struct in2 IN2;
+#ifndef VERIF_IN2_INIT
+#define VERIF_IN2_INIT
+#define VERIF_IN3_INIT_DEFAULT
+#endif
+#ifndef VERIF_IN3_INIT
+#define VERIF_IN3_INIT
+#endif
+static struct in2 IN2 VERIF_IN2_INIT;
 struct in3 { uint8_t to_stdout, force, keep, src_stdin, r_open, open_eloop, r_lstat, lstat_islnk, r_fstat, r_poll, poll_hup, list_mode; uint32_t mode, nlink; };
-static struct in3 IN3;
+static struct in3 IN3 VERIF_IN3_INIT;
 static bool g_open_src_mode;  /* open/fstat/lstat describe the SOURCE file in the io_open_src_real obligation */
 static bool g_open_dest_mode; /* lseek on stdout reports positions only in the io_open_dest_real obligation */
 static char SRC_NAME[] = "src", DEST_NAME_BUF[] = "dest";
@@ -187,8 +229,13 @@ char *dirname(char *p) { return p; }
 /* xz helpers that file_io.c calls */
 void message_warning(const char *fmt, ...) { (void)fmt; ++GL.warnings; }
 void message_error(const char *fmt, ...) { (void)fmt; ++GL.errors; }
+#ifdef VERIF_NATIVE
+void message_fatal(const char *fmt, ...) { (void)fmt; puts("message_fatal"); exit(0); }
+void message_bug(void) { puts("message_bug"); exit(1); }
+#else
 void message_fatal(const char *fmt, ...) { (void)fmt; __CPROVER_assume(0); }
 void message_bug(void) { __CPROVER_assert(0, "message_bug() reached"); __CPROVER_assume(0); }
+#endif
 const char *tuklib_mask_nonprint(const char *s) { return s; }
 void signals_block(void) {} void signals_unblock(void) {}
 volatile sig_atomic_t user_abort;
@@ -201,6 +248,10 @@ int mytime_dummy;
 void *xrealloc(void *p, size_t s) { (void)p; (void)s; return NULL; }
 void set_exit_status(enum exit_status_type s) { (void)s; }
 
+#ifdef VERIF_NATIVE
+/* referenced by parts of file_io.c that no harness reaches */
+void tuklib_open_stdxxx(int status) { (void)status; }
+#endif
 static file_pair P;
 
 static int fd_of(int kind, int regular, int std) { return kind == 0 ? regular : (kind == 1 ? std : -1); }
